@@ -15,6 +15,7 @@ import (
 	"testing"
 	"time"
 
+	"mellium.im/sasl"
 	"mellium.im/xmlstream"
 	"mellium.im/xmpp"
 	"mellium.im/xmpp/internal/xmpptest"
@@ -263,4 +264,18 @@ func TestGvcAdapterReadyWithoutRestart(t *testing.T) {
 		return
 	}
 	fmt.Printf("NOT-REPRODUCED ready without restart: err=%v headers=%d\n", err, headers)
+}
+
+// A features list with the SASL mechanisms followed by another element in
+// the SASL namespace: the client must not panic (and still sees the
+// mechanisms).
+func TestGvcAdapterSASLFeatureDataErased(t *testing.T) {
+	defer func() {
+		if r := recover(); r != nil {
+			fmt.Printf("REPRODUCED negotiation: a second element in the SASL namespace erased the parsed mechanism list and the client panicked: %v\n", r)
+			t.Fail()
+		}
+	}()
+	_, err, _ := gvcClient(gvcHeader+`<stream:features><mechanisms xmlns="urn:ietf:params:xml:ns:xmpp-sasl"><mechanism>PLAIN</mechanism></mechanisms><foo xmlns="urn:ietf:params:xml:ns:xmpp-sasl"/></stream:features>`, xmpp.Secure, xmpp.SASL("", "pw", sasl.Plain))
+	fmt.Printf("NOT-REPRODUCED SASL feature data: no panic, err=%v\n", err)
 }
